@@ -309,6 +309,12 @@ def r2(ctx):
     loops = [n for n in walk_function(sel.node) if isinstance(n, ast.For) and u(n.iter) == "%s.items()" % sparams[0]]
     ok = ok and len(loops) == 1 and [u(t) for t in loops[0].target.elts] == ["chromosome", "block_counts"] and any(isinstance(n, ast.Assign) and u(n.value) == "block_counts.most_common(1)[0]" and u(n.targets[0].elts[0]) == "block_name" for n in ast.walk(loops[0]))
     ctx.ob(pl.qual, "block-identity-includes-chromosome", ok, pl.loc(names[0]) if names else pl.loc(), "block sizes and block read names are both keyed by (chromosome, phase set); the largest block per chromosome is looked up under the same key" if ok else "the tables describing phase blocks do not all identify a block by (chromosome, phase set): blocks with the same id on different chromosomes are conflated")
+    # only haplotagged entries take part in the largest-block bookkeeping: a 'none' entry belongs to no phase set
+    pcfg = ctx.cfg(pl)
+    for bk in sizes + [util.stmt_of(c_) for c_ in names]:
+        gb = guard_atoms(pcfg, pcfg.node_of(bk))
+        okb = ("0 == haplo_num", False) in gb or ("0 < haplo_num", True) in gb
+        ctx.ob(pl.qual, "block-bookkeeping-only-for-tagged-entries:%s" % u(bk)[:40], okb, pl.loc(bk), "phase-set sizes and members are recorded only for entries with a haplotype (haplo_num != 0)" if okb else "`%s` also runs for 'none' entries: the untagged entries of a chromosome form a pseudo block that can win --only-largest-block, and every haplotagged read of that chromosome goes to the untagged output" % u(bk)[:60])
     # ... and the reads of every chromosome's largest block are collected: the lookup happens once per chromosome
     if len(look) == 1 and len(loops) == 1:
         inside_loop = any(x is look[0] for x in ast.walk(loops[0]))
